@@ -7,7 +7,7 @@ CHECKS = {
  'C13': dict(category='proof',
              text='Every obligation generated from the four real functions (result = rule-text spec, totality, '
                   'date/ISO-string agreement, monotonicity in the birth date, option frames, dispatch) is discharged by z3 '
-                  'for all Gregorian dates of years 1..9999 - no leap-cycle or year bound.',
+                  'for all Gregorian dates of years 1..9999 - no leap-cycle or year bound. A refuted dispatch obligation is turned into an input by a boundary grid on the real functions; prior_date is evaluated on every day of six leap / common / century years.',
              note=_TB + ' Assumed dependency contracts: dateutil.relativedelta(d1,d2).years and dateutil.parser.parse on ISO dates '
                   '(cross-checked against dateutil on every run; exhaustively over 9 meeting years in the thorough tier). Meeting year >= 2.',
              technique='contract-based deductive verification: symbolic execution of the real functions -> VCs in LIA -> z3'),
@@ -30,7 +30,7 @@ CHECKS = {
              text='Masters clauses proved for every age band 35..10^6 (symbolic band, label built by the real "V%02d" format as a shape-typed '
                   'string, lexicographic str comparison modelled): weight defined, never heavier with age, specific code valid/normalised/'
                   'carrying the table weight; pass-through for any other text; library-produced labels and every table key: ground evaluation '
-                  '(finite, complete).',
+                  '(finite, complete). The index built by the combined-events scorer counts as a table; keys are re-read after every scorer was used with good and mistyped codes; frame obligations for the seven scorers; ground walk of the masters bands V35..V150.',
              note=_TB + ' Reading: U9/U11 have no implement in the table, ValueError is a permitted refusal there. Ground obligations are '
                   'evaluations of the real functions on the finite set of labels/keys, counted under backend ground-evaluation.',
              technique='contract-based deductive verification (symbolic execution on shape-typed strings -> LIA -> z3) + complete ground evaluation of table keys'),
@@ -47,7 +47,7 @@ CHECKS = {
                   'exact-arithmetic table formula / look-up for every integer centi-mark in and well beyond the table, for float, int and the '
                   'documented text forms (symbolic digits), with float-robustness obligations at every truncation decided exactly in rational '
                   'arithmetic; table order / key validity as complete ground obligations. Level other (not proof) because one ground obligation '
-                  'is a recorded known finding (Bulgarian U16F600 rows).',
+                  'is a recorded known finding (Bulgarian U16F600 rows). Contract of the Sportshall load_data: every column equals the raw sheet read independently.',
              note=_TB + ' IEEE-754 binary64 error analysis in the float proxy (u=2^-53); float(str) correctly rounded; marks on the 0.01 grid; '
                   'text shapes bounded in length (listed per unit).',
              technique='contract-based deductive verification: symbolic execution with float proxy (exact affine value + certified error) -> LIA -> z3; ground table obligations'),
@@ -55,7 +55,7 @@ CHECKS = {
              text='(A) for all marks and all ages at once (symbolic): the rounding stage of score() = exact ceil/floor(k*F) in centi-units '
                   '(float-robustness decided exactly), age-band factor = table entry (1 below 35), guard consistent, the power stage applied to '
                   'that centi-mark with the row coefficients (term equality), no exception; (B) the power stage evaluated on EVERY centi-mark of '
-                  'every row (3.4 M, complete) against the exact integer characterisation; coefficients = pinned official table. (A)+(B) cover the domain.',
+                  'every row (3.4 M, complete) against the exact integer characterisation; coefficients = pinned official table. (A)+(B) cover the domain. Static frame obligation for score() (class-level containers reached through self included), the ESAA option on other rows, and a bounded history check (points after the other graders of the package were asked = points in a forked fresh process).',
              note=_TB + ' IEEE-754 error analysis in the float proxy; the ground stage is complete evaluation (backend ground-evaluation), so no '
                   'assumption on libm pow remains; reading: with an age, events absent from the age table may refuse with ValueError.',
              technique='contract-based deductive verification (symbolic execution + float proxy -> z3) composed with complete ground evaluation of the power stage'),
@@ -70,7 +70,7 @@ CHECKS = {
                   'symbolic marks that each spec is monotone, within bounds, and Tyrving manual <= automatic; combined events: rounding stage exact for '
                   'every age band (C01 obligations) + lemma ceil/floor(k*F) monotone + every adjacent pair of the power-stage grid; Hungarian and '
                   'Bulgarian: every adjacent grid pair of every row through the real function (complete ground evaluation). Level other: part is '
-                  'ground evaluation and one known finding (Bulgarian U16F600) stays refuted.',
+                  'ground evaluation and one known finding (Bulgarian U16F600) stays refuted. Frame obligations for every scorer (no state kept between calls) and a bounded Tyrving history check (hand-timed marks in between).',
              note=_TB + ' Hungarian range as the property defines it (timed <= zero point, field where the formula >= 0).',
              technique='contract-based deductive verification (equality with exact spec + relational z3 lemmas on the spec) and complete ground adjacency sweeps'),
  'C14': dict(category='other',
@@ -78,7 +78,7 @@ CHECKS = {
                   'to 20 years past the last column, split at the tabulated ages) never raises and equals the interpolation of the two adjacent '
                   'non-null entries (z3 equality of exact values + certified float error <= 1e-12); spelling/case independence, best and grade '
                   'identities (4 ulp), exactly 1.0, strict monotonicity and the combined-events band factors: complete ground evaluation of the '
-                  'property domain. Level other: ground part + one known finding (zero entry in the 2015 women PV row).',
+                  'property domain. Level other: ground part + one known finding (zero entry in the 2015 women PV row). Ground: the table in use equals the data file; the package-level wrappers satisfy the grade identity for every spelling of the year and answer from the table of the year on first use in a fresh interpreter; whole ages as int and as float.',
              note=_TB + ' Case variants that are not event codes (e.g. 5m for 5 miles) may be refused.',
              technique='contract-based deductive verification (symbolic execution with exact-rational age + float proxy -> LRA -> z3) + complete ground evaluation'),
  'C15': dict(category='other',
@@ -88,7 +88,7 @@ CHECKS = {
                   'distance, certified float error); both table ends use the end row; the contract of get_distance on the road spellings '
                   'N[.dd]K / N[.dd]M with symbolic digits (whole metres, at most one short) carries these clauses to every spelling. '
                   'No undecided path on this tree (error-zone comparisons are decided by evaluating both sides at the single input in the zone). '
-                  'Level other: ages are sampled.',
+                  'Level other: ages are sampled. Ground: the table in use equals the data file; every tabulated code asked by its own code answers with its own row; monotonicity also ACROSS code paths of world_best (paths renamed apart).',
              note=_TB + ' get_distance of the queried code by contract (symbolic distance); ages sampled {30, 47.5, 80, 100}; '
                   'reading of "nearest shorter/longer" = rows adjacent in the table scan that bracket the distance column.',
              technique='contract-based deductive verification (symbolic execution with float proxy, path-sensitive bounds -> LRA/NRA -> z3; callee contract of get_distance on shape-typed spellings) + bounded stand-in as second line'),
@@ -151,7 +151,7 @@ CHECKS = {
                   'precisions in the thorough tier); the clause that applies to a code is taken from the event-code families, not from the '
                   'validator\'s own membership tests; frame obligation (no shared writes). Bounded: run-time contract on the real function over codes from the whole accepted '
                   'language x a text grammar x gender x precision x custom error class + a directed boundary grid. Two known findings (prec=0 texts '
-                  'that the reading heuristics re-interpret).',
+                  'that the reading heuristics re-interpret). The record rows in use equal the literals of the source (distinct objects, overall = larger of the two); one representative of every shape of the field-code patterns in the boundary grid.',
              note=_TB + ' Text shapes bounded (quick tier trims the longest shapes, thorough runs all); speed limits with 0.01 m/s tolerance.',
              technique='contract-based deductive verification (symbolic execution on shape-typed texts + float proxy -> LIA/LRA -> z3) + run-time contract stand-in'),
  'C16': dict(category='other',
